@@ -543,23 +543,24 @@ def encodeDirectCtx (F : Faults) (o : Opts) (c : Ctx) (e : Enc) (h : Hdr) (ds0 :
   let r4 := updateFileHeader F r3.1 h ds0
   (r4.1, r3.2.1, if r4.2.2 then .ok else .err)
 
-/-- the encoder together with the one thing a cancelled dry run leaves behind: `calculateDataSizeWithContext` returns the
-context's error WITHOUT restoring `e.w` (and `e.n`), so the encoder keeps writing to `io.Discard` — from then on, until
-`Reset`, no call issues any destination operation. -/
+/-- the encoder together with the one thing a cancelled dry run left behind in the code as it was pinned (`CtxCfg.restoresWriter
+= false`): `calculateDataSizeWithContext` returned the context's error WITHOUT restoring `e.w` (and `e.n`), so the encoder kept
+writing to `io.Discard` — from then on, until `Reset`, no call issued any destination operation. With the repaired code the
+flag is never set. -/
 structure EncC where
   e : Enc
   discard : Bool := false
   deriving Repr
 
-/-- does `calculateDataSizeWithContext` put `e.w` (and `e.n`) back when the dry run is cancelled (the repaired code) or return
-with `e.w == io.Discard` (the code as pinned)? Both variants are modelled, as for `StreamCfg`; `pinnedCtxCfg` is the one the
-driver runs against /repo. -/
+/-- does `calculateDataSizeWithContext` put `e.w` (and `e.n`) back when the dry run is cancelled (the repaired code, /repo 4876fc8)
+or return with `e.w == io.Discard` (the code as it was pinned: finding KF-C09-ctx-discard)? Both variants are modelled, as for
+`StreamCfg`; `pinnedCtxCfg` is the one the driver runs against /repo. -/
 structure CtxCfg where
   restoresWriter : Bool
   deriving Repr, DecidableEq
 
 /-- /repo/encoder/encoder.go as it is now -/
-def pinnedCtxCfg : CtxCfg := ⟨false⟩
+def pinnedCtxCfg : CtxCfg := ⟨true⟩
 
 /-- `encodeWithEarlyCheckStrategyWithContext`; the flag: the encoder is left on `io.Discard` (the cancellation was observed in
 the dry run and the writer is not restored) -/
